@@ -6,7 +6,9 @@ import sys, os, json, random, argparse
 
 CFGA = 'cfg_attr(feature = "schema", '
 CASES = ["lowercase", "UPPERCASE", "PascalCase", "camelCase", "snake_case", "SCREAMING_SNAKE_CASE", "kebab-case", "SCREAMING-KEBAB-CASE"]
-FIELD_NAMES = ["a", "user_name", "x1", "a_b_c", "http_url2", "id", "is_active", "created_at", "n", "first_name_2", "url", "v2_api"]
+# identifiers serde's case rules treat specially are in: a leading underscore (camelCase lower-cases the first character *after* PascalCasing,
+# so `_id` -> `id`), a doubled underscore, a trailing underscore
+FIELD_NAMES = ["a", "user_name", "x1", "a_b_c", "http_url2", "id", "is_active", "created_at", "n", "first_name_2", "url", "v2_api", "_uid", "_created_on", "a__b", "kind_"]
 VARIANT_NAMES = ["A", "HTTPError", "IoV2", "UserCreated", "Ok", "NotFound", "B2", "XmlHttpRequest"]
 # none of these can coincide with a case conversion of a FIELD_NAMES entry (two fields with one wire name are a generator fault)
 RENAMES = ["user-name-r", "fullName", "IDENT", "xr", "type", "2fa", "with space", "snake_name", "Kebab-Case-Name", "ünï"]
